@@ -65,6 +65,12 @@ class RealLife:
                                                ["--no-tag-commit", "--no-push"]])}
                 if rng.random() < 0.15 and "--no-commit" not in op["vcs_flags"]:
                     op["dirty_unrelated"] = True      # the developer has unstaged work in an unrelated tracked file
+                elif rng.random() < 0.08:
+                    # the remote cannot be reached for this one run (offline, host gone): the run may stop - or carry on from
+                    # what the local repository knows; it must not carry on from less than that
+                    op["remote_gone"] = True
+                    if "--no-push" not in op["vcs_flags"] and "--no-commit" not in op["vcs_flags"]:
+                        op["vcs_flags"] = list(op["vcs_flags"]) + ["--no-push"]
                 ops.append(op)
                 if "--no-commit" in op["vcs_flags"] and rng.random() < 0.8:
                     ops.append({"op": "actor_commit_all"})
@@ -179,7 +185,15 @@ class RealLife:
             head0 = rg.head()
             tags0 = set(all_tags)
             status0 = rg.status()
-            res = invoker.invoke(w.dir, argv, clock, fakevcs.VcsShim(None, forward_env=rg.env), realgit.PassthroughHooks())
+            gone = bool(op.get("remote_gone")) and fail is None and rg.remote_path and os.path.isdir(rg.remote_path)
+            if gone:
+                os.rename(rg.remote_path, rg.remote_path + ".gone")
+                ctx.fault("remote_unreachable")
+            try:
+                res = invoker.invoke(w.dir, argv, clock, fakevcs.VcsShim(None, forward_env=rg.env), realgit.PassthroughHooks())
+            finally:
+                if gone:
+                    os.rename(rg.remote_path + ".gone", rg.remote_path)
             ctx.invocations += 1
             head1 = rg.head()
             tags1 = set(rg.tags())
@@ -203,7 +217,7 @@ class RealLife:
                     break
                 if pending:
                     rg.git("checkout", "--", "unrelated_notes.txt")
-                if fail is None and not dirty_since_nocommit and (not status0.strip() or pending):
+                if fail is None and not gone and not dirty_since_nocommit and (not status0.strip() or pending):
                     exp = tc.expectation(ctx, tree, start_state, start_text, flags, clock, False)
                     if exp[0] == "ok" and exp[2] is not None and rp.accepts(tree, exp[2]) and pep440.cmp(exp[2], start_text) > 0 \
                             and exp[2] not in tags0 and not facts.get("week53"):
